@@ -260,7 +260,7 @@ fn compile_mint_block(tx: &tir::Tx) -> Result<Option<primitives::Mint>, Error> {
 }
 
 fn compile_inputs(tx: &tir::Tx) -> Result<Vec<primitives::TransactionInput>, Error> {
-    let refs = tx
+    let mut refs: Vec<_> = tx
         .inputs
         .iter()
         .flat_map(|x| coercion::expr_into_utxo_refs(&x.utxos))
@@ -270,6 +270,9 @@ fn compile_inputs(tx: &tir::Tx) -> Result<Vec<primitives::TransactionInput>, Err
             index: x.index as u64,
         })
         .collect();
+
+    // utxo sets have no stable iteration order, the payload has to
+    refs.sort_by_key(|x| (x.transaction_id, x.index));
 
     Ok(refs)
 }
